@@ -381,7 +381,12 @@ def recover(kind, opk, rows, idx, ctx, table, res):
             for i in chunk[:n]:
                 table.setdefault(i, {})[k] = done[i]
             rest = chunk[n:]
-            if stream and rest:
+            if not rest:                      # died after its last row: fall back to plain halving
+                n, rest = 0, chunk
+                mid = len(rest) // 2
+                work.append(rest[mid:])
+                work.append(rest[:mid])
+            elif stream:
                 head, tail = rest[:PROBE], rest[PROBE:]
                 if tail:
                     work.append(tail)
